@@ -9,6 +9,7 @@ package main
 
 import (
 	"bufio"
+	"strings"
 	"context"
 	"encoding/json"
 	"fmt"
@@ -330,6 +331,7 @@ type stepIn struct {
 	pending interface{} // nil: none
 	nilCtl  bool
 	props   core.StepProps
+	warm    bool
 }
 
 func doStep(spec *core.Spec, a *mach.ASpec, st *core.State, pending interface{}, ctl *core.Control, props core.StepProps) (O, *core.Stride) {
@@ -385,6 +387,16 @@ func stepCase(id int, kind string, in stepIn) O {
 		"spec": mach.EncSpec(in.a), "st": mach.EncState(st), "nilbs": in.bs == nil, "q": qvals(in.bs) || hasTyped(in.bs),
 		"perm": mach.PermNames(in.a, in.bs), "pending": pendEnc, "nilctl": in.nilCtl,
 		"raw": enc.Canon(O{"spec": in.a, "node": in.node, "bs": in.bs, "pending": in.pending, "nilctl": in.nilCtl, "props": in.props})}
+	if in.warm {
+		// the same compiled spec first serves another machine, one without permanent bindings
+		wbs := match.Bindings{}
+		for k, v := range in.bs {
+			if !strings.HasSuffix(k, "!") {
+				wbs[k] = enc.DeepCopy(v)
+			}
+		}
+		doStep(spec, in.a, &core.State{NodeName: in.node, Bs: wbs}, enc.DeepCopy(in.pending), ctl, nil)
+	}
 	specBefore := mach.SpecSnapshot(spec)
 	propsBefore := enc.Canon(in.props)
 	ctlBefore := ""
@@ -420,7 +432,7 @@ func stepCase(id int, kind string, in stepIn) O {
 
 func genStep(id int, kind string, b bias) O {
 	a := genSpec(b, 1+rng.Intn(2), true)
-	in := stepIn{a: a, node: "n0", bs: genBs(b), nilCtl: p(0.3)}
+	in := stepIn{a: a, node: "n0", bs: genBs(b), nilCtl: p(0.3), warm: p(0.4)}
 	if p(0.08) {
 		in.node = "ghost"
 	}
